@@ -353,6 +353,9 @@ func checkRoundTrip(c RTCase) error {
 	if err := tokenRoundTrip(toks, got); err != nil {
 		return fmt.Errorf("%v\n%s", err, text)
 	}
+	if err := checkParseExpr(want, toks, text); err != nil {
+		return err
+	}
 
 	s := shapeOf(c.Tree)
 	classifyTree(s)
@@ -361,6 +364,27 @@ func checkRoundTrip(c RTCase) error {
 		vk.S.NonTrivial(text)
 		vk.S.Sample("roundtrip", "nontrivial", map[string]any{"text": text})
 	}
+	return nil
+}
+
+// checkParseExpr: a file that is one expression statement is also an input of ParseExpr.
+func checkParseExpr(want *N, toks []Tok, text string) error {
+	if len(want.B) != 1 || want.B[0].K != "expr" {
+		return nil
+	}
+	for _, t := range toks {
+		if t.K == "op" && t.S == ";" {
+			return nil
+		}
+	}
+	x, err := fileOpts.ParseExpr("c14.star", text, 0)
+	if err != nil {
+		return fmt.Errorf("ParseExpr rejects a valid expression: %v\n%s", err, text)
+	}
+	if err := diff(want.B[0].A[0], convExpr(x), "/ParseExpr", true); err != nil {
+		return fmt.Errorf("ParseExpr: %v\n%s", err, text)
+	}
+	vk.S.Class("api:ParseExpr")
 	return nil
 }
 
@@ -400,6 +424,34 @@ type TextCase struct {
 }
 
 func checkText(c TextCase) error {
+	err := checkTextInner(c)
+	if err != nil && nulEndsFile(c.Text) {
+		return vk.Known("C14-nul-byte-ends-file", err)
+	}
+	return err
+}
+
+// nulEndsFile recognises finding C14-nul-byte-ends-file: the text has a NUL
+// byte and the parser behaves exactly as if the file ended there (same tree,
+// or an error in both cases).
+func nulEndsFile(text string) bool {
+	if !strings.Contains(text, "\x00") {
+		return false
+	}
+	full, _, ferr := parseImpl(text, false)
+	for i := 0; i < len(text); i++ {
+		if text[i] != 0 {
+			continue
+		}
+		cut, _, cerr := parseImpl(text[:i], false)
+		if (ferr != nil) == (cerr != nil) && (ferr != nil || canon(full) == canon(cut)) {
+			return true
+		}
+	}
+	return false
+}
+
+func checkTextInner(c TextCase) error {
 	text := c.Text
 	rt, rtoks, unsure, rerr := refParse(text)
 	verdict := "accept"
@@ -678,6 +730,42 @@ func nearMiss(t *rapid.T) TextCase {
 	return TextCase{Text: text, Origin: origin}
 }
 
+// chain renders A op1 B op2 C with two comparison operators and no
+// parentheses around either comparison: the spec says the parser will not accept it.
+func chain(t *rapid.T) TextCase {
+	cmp := []string{"==", "!=", "<", ">", "<=", ">=", "in", "not in"}
+	g := &gen{t: t, budget: 12}
+	L := genLayout(t)
+	b := &builder{r: &rng{s: L.Seed}, L: L}
+	opTok := func(op string) {
+		switch op {
+		case "in":
+			b.kw("in")
+		case "not in":
+			b.kw("not")
+			b.kw("in")
+		default:
+			b.op(op)
+		}
+	}
+	if vk.Chance(t, 0.5) {
+		b.emit("id", "r_", "")
+		b.op("=")
+	}
+	b.expr(g.expr(2), ctx{min: pCmp + 1})
+	opTok(pick(t, cmp))
+	b.expr(g.expr(2), ctx{min: pCmp + 1})
+	opTok(pick(t, cmp))
+	b.expr(g.expr(2), ctx{min: pCmp + 1})
+	b.nl()
+	text, _, _ := emit(b.toks, L)
+	return TextCase{Text: text, Origin: "cmp-chain-random", Expect: "reject"}
+}
+
+func TestPropChains(t *testing.T) {
+	vk.Rapid(t, subText, vk.N(300, 1500), chain)
+}
+
 func TestPropNearMiss(t *testing.T) {
 	vk.Rapid(t, subText, vk.N(4000, 25000), nearMiss)
 }
@@ -708,12 +796,13 @@ func listedTexts() []TextCase {
 		"pass pass\n", "x = 1 2\n", "x = 'a' 'b'\n", "def f(): return\n x\n", "x = (a, b\n", "for x, in y: pass\n", "x = lambda: (yield)\n", "break 1\n",
 		"x = a <> b\n", "x = a === b\n", "x = a ** b\n", "x = a -> b\n", "x = not\n", "x = a in\n", "x = ()()(\n", "x = {1: }\n", "x = {: 1}\n", "x = {1: 2, , }\n", "f(,)\n", "f(a,,b)\n",
 		"[,]\n", "(,)\n", "x = 1;;y = 2\n", ";\n",
+		"x = 1\n\x00y = 2\n", "\x00", // a NUL byte is neither white space nor a token (finding C14-nul-byte-ends-file)
 	}
 	for _, s := range rej {
 		out = append(out, TextCase{Text: s, Expect: "reject", Origin: "listed-reject"})
 	}
 	acc := []string{
-		"", "\n", "# only a comment", "x = 1", "x = 1;", "x = 1; y = 2;\n", "if x: pass", "if x: pass; y = 1\nelif z: pass\nelse: pass", "def f(): pass\n",
+		"", "\n", "# only a comment", "# a comment with a NUL \x00 byte\ny = 2\n", "x = 1", "x = 1;", "x = 1; y = 2;\n", "if x: pass", "if x: pass; y = 1\nelif z: pass\nelse: pass", "def f(): pass\n",
 		"def f(a, b=1, *args, c, d=2, **kw,): return a, b\n", "def f(*, a): pass\n", "def f(**k, a, *b, c=1): pass\n", "x = lambda: 0\n", "x = lambda *a, **k: (a, k)\n",
 		"x = a if b else c if d else e\n", "x = lambda: a if b else c\n", "x = a if b else lambda: c\n", "x = not a == b\n", "x = not not a\n", "x = a and not b or c\n",
 		"x = - - a\n", "x = -~+a\n", "x = ~-1\n", "x = -a.b(c)[d]\n", "x = -a * b\n", "x = a - -b\n", "x = a[:]\n", "x = a[::]\n", "x = a[1:]\n", "x = a[:2]\n", "x = a[::3]\n", "x = a[1:2:3]\n",
@@ -765,7 +854,9 @@ func FuzzParse(f *testing.F) {
 		if len(text) > 4000 || strings.Count(text, "(")+strings.Count(text, "[")+strings.Count(text, "{")+strings.Count(text, "-")+strings.Count(text, "not") > 400 {
 			return // deep nesting is C02's domain
 		}
-		if err := checkText(TextCase{Text: text, Origin: "fuzz"}); err != nil && !strings.HasPrefix(err.Error(), "harness:") {
+		err := checkText(TextCase{Text: text, Origin: "fuzz"})
+		var ke *vk.KnownErr
+		if err != nil && !strings.HasPrefix(err.Error(), "harness:") && !errors.As(err, &ke) {
 			t.Fatal(err)
 		}
 	})
